@@ -54,6 +54,7 @@ fn main() {
             Some(w @ ("c16m" | "c02p")) => gen_enc::gen_prefix(&mut out, w, seed, thorough),
             Some("c19p") => gen_enc::gen_prune(&mut out, seed, thorough),
             Some("c02x") => gen_enc::gen_badplans(&mut out, seed, thorough),
+            Some("c18m") => gen_enc::gen_planner(&mut out, seed, thorough),
             Some("c08") => gen_c08::gen(&mut out, seed, thorough),
             Some("c07") => gen_c07::gen(&mut out, seed, thorough),
             Some("c06") => gen_c06::gen(&mut out, seed, thorough),
